@@ -856,6 +856,9 @@ def run(eng: Engine, ck: Check):
         bool(rcalls[0].args) and unparse(rcalls[0].args[0]) == keyv[0][1]['key']
     ck.ob('R-C01-OBFUSC', od, od.node, 'the decoder takes the key from the first KEY_SIZE bytes and the payload from the rest', ok, '', construct='decoder key position')
 
+    from . import defs as _d01
+    _d01.string_decoding_tolerant(eng, ck, 'R-C01-PRIMSYM', 'the reader of the codec accepts what legacy peers write')
+
     # ---- R-C01-DOC (advisory): second source for the pinned layout
     # The repository ships a hand-written description of the protocol (docs/source/deprecated/MESSAGES.rst).  The pinned table is
     # compared with it: codes and the flat type sequence of every Send / Receive list (tools/doc_xread.py).  The document is known to
